@@ -765,9 +765,13 @@ Section Network.
     match last_opt (fw_post f) with Some t => Ok t | None => Panic P_unwrap end.
 
   (* ------------------------------------------------------------ backward *)
-  (* {to: from} -> {from: to}; a later entry with the same source overwrites an earlier one *)
-  Definition invert_net_connect (m : list (nat * nat)) : list (nat * nat) :=
-    fold_left (fun inv kv => alist_set inv (snd kv) (fst kv)) (sort_by_key m) [].
+  (* {to: from} -> {from: [to, ...]}: entries visited in key order, targets appended *)
+  Definition invert_net_connect (m : list (nat * nat)) : list (nat * list nat) :=
+    fold_left (fun inv kv =>
+                 match alist_get inv (snd kv) with
+                 | Some l => alist_set inv (snd kv) (l ++ [fst kv])
+                 | None => alist_set inv (snd kv) [fst kv]
+                 end) (sort_by_key m) [].
 
   Definition layer_backward (l : layer) (g input output : tensor) (mx : option mpval)
              (fb : option (list tensor * list tensor))
@@ -799,11 +803,26 @@ Section Network.
     let layers := n_layers n in
     let len := length layers in
     let inv := invert_net_connect (n_connect n) in
-    do st <- foldM (fun (st : list tensor * list grad * list (option bgrad) * list (list tensor * list tensor)) il =>
-                let '(gs, wgs, bgs, fbs) := st in
+    do st <- foldM (fun (st : list tensor * list grad * list (option bgrad) * list (list tensor * list tensor) * list tensor) il =>
+                let '(gs, wgs, bgs, fbs, ps) := st in
                 let '(i, lyr) := (il : nat * layer) in
                 let idx := len - i - 1 in
-                do input <- nth_res (fw_post f) idx;
+                do input0 <- nth_res (fw_post f) idx;
+                (* the input the layer processed in forward: accumulated with its skip source *)
+                do input <- (match alist_get (n_connect n) idx with
+                             | Some src =>
+                                 do s0 <- nth_res (fw_post f) src;
+                                 do s <- (if shape_eqb (tshape s0) (tshape input0) then Ok s0
+                                          else reshape s0 (tshape input0));
+                                 match n_skipacc n with
+                                 | AccAdd => add_inplace input0 s
+                                 | AccSub => sub_inplace input0 s
+                                 | AccMul => mul_inplace input0 s
+                                 | AccOverwrite => Ok s
+                                 | AccMean => mean_inplace input0 [s]
+                                 end
+                             | None => Ok input0
+                             end);
                 do output <- nth_res (fw_pre f) idx;
                 do lastg <- (match last_opt gs with Some t => Ok t | None => Panic P_unwrap end);
                 do mx <- nth_res (fw_max f) idx;
@@ -811,17 +830,20 @@ Section Network.
                 let fbs' := match lyr with LFeedback _ => removelast fbs | _ => fbs end in
                 do r <- layer_backward lyr lastg input output mx fb;
                 let '(g, wg, bg) := r in
+                (* processed[len - idx]: gradient wrt. the input layer idx processed *)
+                let ps' := ps ++ [g] in
                 do g' <- (match alist_get inv idx with
-                          | Some to =>
-                              do k <- csub len to;
-                              do g2 <- nth_res gs k;
-                              do g2' <- reshape g2 (tshape g);
-                              add_inplace g g2'
+                          | Some tos =>
+                              foldM (fun gacc to =>
+                                       do k <- csub len to;
+                                       do g2 <- nth_res ps' k;
+                                       do g2' <- reshape g2 (tshape gacc);
+                                       add_inplace gacc g2') tos g
                           | None => Ok g
                           end);
-                Ok (gs ++ [g'], wgs ++ [wg], bgs ++ [bg], fbs'))
-              (combine (seq 0 len) (rev layers)) ([gradient], [], [], fw_fb f);
-    let '(gs, wgs, bgs, _) := st in
+                Ok (gs ++ [g'], wgs ++ [wg], bgs ++ [bg], fbs', ps'))
+              (combine (seq 0 len) (rev layers)) ([gradient], [], [], fw_fb f, [gradient]);
+    let '(gs, wgs, bgs, _, _) := st in
     Ok (wgs, bgs, gs).
 
   (* ------------------------------------------------------------ update *)
